@@ -60,6 +60,8 @@ package broker
 //@   ensures [C14.rebalance_resets_joins] len(s.members) != 0 ==> forall k string :: has(s.members, k) ==> mapval(s.members, k).joinGeneration == 0
 //@   ensures [C12.rebalance_clears_assignments] s.assignments != nil && fresh(s.assignments) && len(s.assignments) == 0 && (forall k string :: !has(s.assignments, k))
 //@   ensures s.members == old(s.members) && keepsMap("string", "*memberState") && keepsMem("string") && keepsField("memberState", "topics") && keepsField("memberState", "sessionTimeout") && keepsField("memberState", "lastHeartbeat")
+//@   ensures keepsMapLen()
+//@   ensures forall g *groupState :: g != s ==> g.generationID == old(g.generationID) && g.state == old(g.state) && g.leaderID == old(g.leaderID) && g.assignments == old(g.assignments) && g.members == old(g.members)
 //@   loop 1 invariant forall k string :: seen(1, k) ==> mapval(s.members, k).joinGeneration == 0
 
 // Representation invariant of the coordinator (assumed at entry of every public method, re-established at exit).
@@ -79,14 +81,15 @@ package broker
 //@   requires storedGroupOK(group)
 //@   ensures result != nil && groupOK(result) && fresh(result.members) && fresh(result.assignments)
 //@   ensures [C13.restore_keeps_generation] result.generationID == group.GenerationId
+//@   ensures [C14.restore_establishes_group_invariant] groupInv(result)
 //@   ensures keepsField("groupState", "*")
 //@   ensures keepsField("memberState", "*")
 //@   ensures keepsMap("string", "*memberState") && keepsMap("string", "[]assignmentTopic") && keepsMap("string", "*groupState")
 //@   loop 1 invariant state != nil && fresh(state) && state.members != nil && fresh(state.members) && state.assignments != nil && fresh(state.assignments) && state.generationID == group.GenerationId
-//@   loop 1 invariant forall k string :: has(state.members, k) ==> mapval(state.members, k) != nil
+//@   loop 1 invariant forall k string :: has(state.members, k) ==> mapval(state.members, k) != nil && mapval(state.members, k).joinGeneration == group.GenerationId
 //@   loop 1 invariant groupsUntouched() && keepsMap("string", "*groupState")
 //@   loop 2 invariant state != nil && fresh(state) && state.members != nil && fresh(state.members) && state.assignments != nil && fresh(state.assignments) && state.generationID == group.GenerationId
-//@   loop 2 invariant forall k string :: has(state.members, k) ==> mapval(state.members, k) != nil
+//@   loop 2 invariant forall k string :: has(state.members, k) ==> mapval(state.members, k) != nil && mapval(state.members, k).joinGeneration == group.GenerationId
 //@   loop 2 invariant groupsUntouched() && keepsMap("string", "*groupState") && -1 <= rangeindex && rangeindex < len(member.Assignments)
 //@   loop 2 invariant has(group.Members, memberID) && member == mapval(group.Members, memberID)
 
@@ -96,10 +99,11 @@ package broker
 //@   opaque_strings
 //@   requires coordOK(c)
 //@   ensures err != nil ==> result0 == nil
-//@   ensures has(old(c.groups), groupID) ==> err == nil && result0 == old(c.groups[groupID])
+//@   ensures old(has(c.groups, groupID)) ==> err == nil && result0 == old(c.groups[groupID])
 //@   ensures result0 != nil ==> has(c.groups, groupID) && c.groups[groupID] == result0
 //@   ensures result0 == nil ==> !has(c.groups, groupID)
-//@   ensures [C13.load_adds_only_requested_group] forall g string :: g != groupID || has(old(c.groups), groupID) ==> has(c.groups, g) == old(has(c.groups, g)) && mapval(c.groups, g) == old(mapval(c.groups, g))
+//@   ensures [C14.load_establishes_group_invariant] result0 != nil && !old(has(c.groups, groupID)) ==> groupInv(result0)
+//@   ensures [C13.load_adds_only_requested_group] forall g string :: g != groupID || old(has(c.groups, groupID)) ==> has(c.groups, g) == old(has(c.groups, g)) && mapval(c.groups, g) == old(mapval(c.groups, g))
 //@   ensures coordOK(c) && c.groups == old(c.groups) && c.store == old(c.store) && groupsUntouched()
 
 //@ func (c *GroupCoordinator) persistGroupLocked
@@ -118,5 +122,71 @@ package broker
 //@   ensures [C13.heartbeat_stale_generation] has(c.groups, req.Group) && has(c.groups[req.Group].members, req.MemberID) && c.groups[req.Group].members[req.MemberID] != nil && req.Generation != c.groups[req.Group].generationID ==> result.ErrorCode == protocol.ILLEGAL_GENERATION
 //@   ensures [C13.heartbeat_fenced_changes_nothing] !current(c, req.Group, req.MemberID, req.Generation) ==> groupsUntouched()
 //@   at persistGroupLocked#1 before assert [C13.heartbeat_persists_only_current] current(c, req.Group, req.MemberID, req.Generation) && state == c.groups[req.Group]
-//@   ensures [C13.heartbeat_keeps_generation] keepsField("groupState", "generationID") && (forall g string :: has(old(c.groups), g) ==> has(c.groups, g) && mapval(c.groups, g) == old(mapval(c.groups, g)))
+//@   ensures [C13.heartbeat_keeps_generation] keepsField("groupState", "generationID") && (forall g string :: old(has(c.groups, g)) ==> has(c.groups, g) && mapval(c.groups, g) == old(mapval(c.groups, g)))
 //@   ensures coordOK(c)
+
+// A generation never decreases (the int32 counter wraps after 2^31-1 rebalances of one group: see notes).
+//@ spec func genNotLower(before int32, after int32) bool = after >= before || before == 2147483647
+
+//@ func (c *GroupCoordinator) SyncGroup
+//@   opaque_strings
+//@   merge_branches
+//@   opaque_field_addrs
+//@   requires coordOK(c)
+//@   ensures err != nil ==> result0 == nil
+//@   ensures [C13.sync_fenced] err == nil && !current(c, req.Group, req.MemberID, req.Generation) ==> result0 != nil && result0.ErrorCode != protocol.NONE
+//@   ensures [C13.sync_stale_generation] err == nil && has(c.groups, req.Group) && req.Generation != c.groups[req.Group].generationID ==> result0.ErrorCode == protocol.ILLEGAL_GENERATION
+//@   ensures [C13.sync_unknown_member] err == nil && (!has(c.groups, req.Group) || (req.Generation == c.groups[req.Group].generationID && !has(c.groups[req.Group].members, req.MemberID))) ==> result0.ErrorCode == protocol.UNKNOWN_MEMBER_ID
+//@   ensures [C13.sync_fenced_changes_nothing] !current(c, req.Group, req.MemberID, req.Generation) ==> groupsUntouched()
+//@   at assignPartitions#1 before assert [C13.sync_assigns_only_for_current] current(c, req.Group, req.MemberID, req.Generation) && state == c.groups[req.Group]
+//@   at persistGroupLocked#1 before assert [C13.sync_persists_only_current] current(c, req.Group, req.MemberID, req.Generation) && state == c.groups[req.Group]
+//@   ensures [C13.sync_keeps_generation] keepsField("groupState", "generationID") && keepsField("groupState", "members") && keepsMap("string", "*memberState") && (forall g string :: old(has(c.groups, g)) ==> has(c.groups, g) && mapval(c.groups, g) == old(mapval(c.groups, g)))
+
+//@ func (c *GroupCoordinator) OffsetCommit
+//@   opaque_strings
+//@   merge_branches
+//@   requires coordOK(c)
+//@   at CommitConsumerOffset#1 before assert [C13.commit_only_from_current_member] current(c, req.Group, req.MemberID, req.Generation)
+//@   at append#1 before assert [C13.commit_fenced_code] !current(c, req.Group, req.MemberID, req.Generation) ==> partResp.ErrorCode == ite(has(c.groups, req.Group) && has(c.groups[req.Group].members, req.MemberID), protocol.ILLEGAL_GENERATION, protocol.UNKNOWN_MEMBER_ID)
+//@   at append#1 before assert [C13.commit_answers_requested_partition] partResp.Partition == part.Partition
+//@   ensures [C13.commit_changes_no_group] groupsUntouched() && (forall g string :: old(has(c.groups, g)) ==> has(c.groups, g) && mapval(c.groups, g) == old(mapval(c.groups, g)))
+//@   loop 1 invariant resp != nil && fresh(resp) && -1 <= rangeidx(1) && rangeidx(1) < len(req.Topics)
+//@   loop 2 invariant resp != nil && fresh(resp) && -1 <= rangeidx(1) && rangeidx(1) < len(req.Topics) && -1 <= rangeidx(2) && rangeidx(2) < len(topic.Partitions)
+
+// Group invariant used by C14 (assumed for the addressed group at entry of a method, re-established at exit):
+// in CompletingRebalance / Stable every member has joined the current generation; a non-empty leader id names a member.
+//@ spec func groupInv(s *groupState) bool = ((s.state == groupStateCompletingRebalance || s.state == groupStateStable) ==> allJoined(s)) && (s.leaderID == "" || has(s.members, s.leaderID))
+
+// ensureGroup: the cached or restored group, else a new empty one (generation 0, phase Empty, no members).
+//@ func (c *GroupCoordinator) ensureGroup
+//@   opaque_strings
+//@   merge_branches
+//@   requires coordOK(c)
+//@   ensures err != nil ==> result0 == nil
+//@   ensures err == nil ==> result0 != nil && has(c.groups, groupID) && c.groups[groupID] == result0
+//@   ensures old(has(c.groups, groupID)) ==> err == nil && result0 == old(c.groups[groupID])
+//@   ensures forall g string :: g != groupID || old(has(c.groups, groupID)) ==> has(c.groups, g) == old(has(c.groups, g)) && mapval(c.groups, g) == old(mapval(c.groups, g))
+//@   ensures [C14.new_group_satisfies_invariant] err == nil && !old(has(c.groups, groupID)) ==> groupInv(result0)
+//@   ensures coordOK(c) && c.groups == old(c.groups) && c.store == old(c.store) && groupsUntouched()
+
+//@ func (c *GroupCoordinator) parseSubscriptionTopics
+//@   modular
+//@ func (c *GroupCoordinator) encodeMemberSubscriptions
+//@   modular
+
+//@ func (c *GroupCoordinator) JoinGroup
+//@   opaque_strings
+//@   merge_branches
+//@   opaque_field_addrs
+//@   requires coordOK(c)
+//@   requires has(c.groups, req.Group) ==> groupInv(c.groups[req.Group])
+//@   ensures err != nil ==> result0 == nil
+//@   ensures [C14.join_success_means_all_joined] err == nil && result0.ErrorCode == protocol.NONE ==> has(c.groups, req.Group) && (c.groups[req.Group].state == groupStateCompletingRebalance || c.groups[req.Group].state == groupStateStable) && allJoined(c.groups[req.Group])
+//@   ensures [C14.join_group_cached] err == nil ==> has(c.groups, req.Group)
+//@   ensures [C14.join_reports_leader] err == nil ==> result0.LeaderID == c.groups[req.Group].leaderID
+//@   ensures [C14.join_leader_is_member] err == nil ==> has(c.groups[req.Group].members, c.groups[req.Group].leaderID)
+//@   at persistGroupLocked#1 before assert [C14.join_leader_is_member_before_persist] state == c.groups[req.Group] && has(state.members, state.leaderID)
+//@   ensures [C14.join_member_list_only_for_leader] err == nil && len(result0.Members) != 0 ==> result0.MemberID == result0.LeaderID
+//@   ensures [C14.join_reports_member_and_generation] err == nil ==> has(c.groups[req.Group].members, result0.MemberID) && result0.Generation == c.groups[req.Group].generationID
+//@   ensures [C14.join_keeps_group_invariant] err == nil ==> groupInv(c.groups[req.Group])
+//@   ensures [C13.join_generation_not_lower] err == nil && old(has(c.groups, req.Group)) ==> c.groups[req.Group] == old(c.groups[req.Group]) && genNotLower(old(c.groups[req.Group].generationID), c.groups[req.Group].generationID)
